@@ -75,5 +75,53 @@ pub fn run(tier: &str, seed: u64, em: &mut Emitter) {
         metas.push(format!("{{\"tree\":{},\"entries\":{},\"proofs\":{},\"root\":\"{}\"}}", ci, contents.len(), proofs.len(), hex::encode(root)));
     }
     em.case_files_with("merkle", "mcase", "check_merkle", &lines, &metas, 2, "Cases.MerkleLib");
+    // dense trees (novasmt::dense, the TIP-908 transaction tree): root, every proof, a wrong leaf
+    let mut dlines = vec![];
+    let mut dmetas = vec![];
+    let sizes: Vec<usize> = if tier == "thorough" { (0..=17).chain([31, 32, 33]).collect() } else { vec![0, 1, 2, 3, 4, 5, 7, 8, 9] };
+    for nb in sizes {
+        let blocks: Vec<Vec<u8>> = (0..nb).map(|i| if i == 1 && r.chance(1, 3) { vec![] } else { let l = r.range(1, 5) as usize; r.bytes(l) }).collect();
+        let tree = novasmt::dense::DenseMerkleTree::new(&blocks);
+        let root = tree.root_hash();
+        // the real hash evaluations of the tree, recomputed level by level
+        let mut hdata: Vec<(Vec<u8>, [u8; 32])> = blocks.iter().filter(|b| !b.is_empty()).map(|b| (b.clone(), novasmt::hash_data(b))).collect();
+        let mut level: Vec<[u8; 32]> = blocks.iter().map(|b| novasmt::hash_data(b)).collect();
+        let npp = level.len().next_power_of_two();
+        while level.len() < npp { level.push([0u8; 32]); }
+        let mut hnode: Vec<(([u8; 32], [u8; 32]), [u8; 32])> = vec![];
+        while level.len() > 1 {
+            let mut next = vec![];
+            for pair in level.chunks(2) {
+                let h = novasmt::hash_node(pair[0], pair[1]);
+                if pair[0] != [0u8; 32] || pair[1] != [0u8; 32] { hnode.push(((pair[0], pair[1]), h)); }
+                next.push(h);
+            }
+            level = next;
+        }
+        let mut proofs = vec![];
+        for i in 0..nb {
+            let pr = tree.proof(i);
+            let leaf = novasmt::hash_data(&blocks[i]);
+            let ok = novasmt::dense::verify_dense(&pr, root, i, leaf);
+            let mut wrong = blocks[i].clone(); wrong.push(9);
+            let wl = novasmt::hash_data(&wrong);
+            let ok_wrong = novasmt::dense::verify_dense(&pr, root, i, wl);
+            hdata.push((wrong.clone(), wl));
+            // evaluations along the wrong climb
+            let mut cur = wl; let mut idx = i;
+            for e in &pr { let (l, rr) = if idx & 1 == 1 { (*e, cur) } else { (cur, *e) }; let h = novasmt::hash_node(l, rr); hnode.push(((l, rr), h)); cur = h; idx >>= 1; }
+            proofs.push((i, blocks[i].clone(), pr.clone(), ok));
+            proofs.push((i, wrong, pr, ok_wrong));
+        }
+        hdata.sort(); hdata.dedup(); hnode.sort(); hnode.dedup();
+        st.bump(&format!("dense_blocks_{}", nb));
+        dlines.push(format!("{{| dc_blocks := {}; dc_root := {}; dc_hdata := {}; dc_hnode := {}; dc_proofs := {} |}}",
+            cf::list(&blocks, |b| cf::bytes(b)), n(&root),
+            cf::list(&hdata, |(v, h)| format!("({}, {})", cf::bytes(v), n(h))),
+            cf::list(&hnode, |((a, b), h)| format!("(({}, {}), {})", n(a), n(b), n(h))),
+            cf::list(&proofs, |(i, v, p, ok)| format!("({}, {}, {}, {})", i, cf::bytes(v), cf::list(p, n), ok))));
+        dmetas.push(format!("{{\"dense_blocks\":{},\"root\":\"{}\"}}", nb, hex::encode(root)));
+    }
+    em.case_files_with("dense", "dcase", "check_dense", &dlines, &dmetas, 4, "Cases.MerkleLib");
     em.stats("merkle", st);
 }
